@@ -49,7 +49,7 @@ def verify_unit(unit):
     kind, name = unit
     reg = _REG
     v = verify.Verifier(reg, goal_timeout_ms=_OPTS.get('timeout_ms', QUICK_TIMEOUT_MS),
-                        keep_smt2=_OPTS.get('keep_smt2', False))
+                        keep_smt2=_OPTS.get('keep_smt2', False), pid=_OPTS.get('pid'))
     t0 = time.time()
     try:
         if kind == 'function':
@@ -406,7 +406,7 @@ def load_known_findings():
 def run_property(pid, tier='quick', seed=0, extra_checks=None, modules=None, jobs=None):
     t_start = time.time()
     opts = dict(timeout_ms=THOROUGH_TIMEOUT_MS if tier == 'thorough' else QUICK_TIMEOUT_MS,
-                keep_smt2=True, seed=seed,
+                keep_smt2=True, seed=seed, pid=pid,
                 search_samples=20000 if tier == 'thorough' else 3000)
     _init(modules, opts)
     reg = _REG
